@@ -255,9 +255,7 @@ end Json
 /-! ## The value of a number literal -/
 namespace Num
 
-def digitsVal (acc : Nat) : Bytes → Nat
-  | [] => acc
-  | c :: r => digitsVal (acc * 10 + (c - 48)) r
+def digitsVal (acc : Nat) (s : Bytes) : Nat := s.foldl (fun a c => a * 10 + (c - 48)) acc
 
 /-- an integer literal `-?digits` (no fraction, no exponent) and its value -/
 def intLit (lit : Bytes) : Option Int :=
